@@ -147,7 +147,7 @@ fn hostile_conn(r: &mut Rng, nonce: &mut u64, port: u16, span_ms: u64) -> ConnPl
     }
     let my = *nonce;
     *nonce += 1;
-    match r.below(13) {
+    match r.below(15) {
         12 => {
             // a websocket handshake that lacks or garbles one of its four
             // elements (the C20 generator): malformed, so 4xx/5xx, never 101
@@ -164,11 +164,11 @@ fn hostile_conn(r: &mut Rng, nonce: &mut u64, port: u16, span_ms: u64) -> ConnPl
             c.steps.push(Step::AwaitResponses { count: 1, max_ms: 35_000 });
             c.steps.push(Step::Close);
         }
-        11 => {
+        11 | 13 | 14 => {
             // a request whose typed parameters or body cannot be decoded (one
             // malformation from the C10 catalogue): malformed, so 4xx/5xx
             use super::echo_gen::{gen_form, gen_narrow, gen_page, gen_raw, gen_typed, gen_wild};
-            let mut e = match r.below(7) {
+            let mut e = match r.below(9) {
                 0 => gen_form(r, my, 0, 0),
                 1 => gen_narrow(r, my, 0, 0),
                 2 => gen_page(r, my, 0, 0),
